@@ -1,0 +1,34 @@
+//go:build verif
+
+// Contracts for auth.go, checked by /verif/govc (comment-only file: no declarations).
+package absnfs
+
+//@ func applySquashing
+//@ prop C10
+//@ requires result != nil && authSys != nil
+//@ requires result.UID == authSys.UID && result.GID == authSys.GID
+//@ modifies result.UID, result.GID, authSys.AuxGIDs, elems(uint32)
+//
+// 'all': uid, gid and every auxiliary gid become 65534
+//@ ensures [all-ids] lower(squash) == "all" ==> result.UID == 65534 && result.GID == 65534
+//@ ensures [all-aux] lower(squash) == "all" ==> len(authSys.AuxGIDs) == len(old(authSys.AuxGIDs)) && forall(i, 0, len(authSys.AuxGIDs), authSys.AuxGIDs[i] == 65534)
+// 'root': uid 0 (with its primary gid) and every other gid 0 become 65534, other ids unchanged
+//@ ensures [root-uid0] lower(squash) == "root" && old(authSys.UID) == 0 ==> result.UID == 65534 && result.GID == 65534
+//@ ensures [root-other-uid] lower(squash) == "root" && old(authSys.UID) != 0 ==> result.UID == old(authSys.UID)
+//@ ensures [root-other-gid] lower(squash) == "root" && old(authSys.UID) != 0 ==> result.GID == ite(old(authSys.GID) == 0, 65534, old(authSys.GID))
+//@ ensures [root-aux] lower(squash) == "root" ==> len(authSys.AuxGIDs) == len(old(authSys.AuxGIDs)) && forall(i, 0, len(authSys.AuxGIDs), authSys.AuxGIDs[i] == ite(old(old(authSys.AuxGIDs)[i]) == 0, 65534, old(old(authSys.AuxGIDs)[i])))
+// 'none' (and the empty default): ids pass through
+//@ ensures [none] lower(squash) == "none" || lower(squash) == "" ==> result.UID == old(authSys.UID) && result.GID == old(authSys.GID) && authSys.AuxGIDs == old(authSys.AuxGIDs)
+// unrecognised mode: uid and gid become 65534
+//@ ensures [unknown] lower(squash) != "all" && lower(squash) != "root" && lower(squash) != "none" && lower(squash) != "" ==> result.UID == 65534 && result.GID == 65534
+// squashing never alters auxiliary-gid data shared with the caller
+//@ ensures [aux-shared-untouched] forall(i, 0, len(old(authSys.AuxGIDs)), old(authSys.AuxGIDs)[i] == old(old(authSys.AuxGIDs)[i]))
+//@ ensures [authsys-ids-untouched] authSys.UID == old(authSys.UID) && authSys.GID == old(authSys.GID)
+//@ loop 1 invariant 0 <= rangeindex + 1 && rangeindex + 1 <= len(authSys.AuxGIDs) && authSys != nil
+//@ loop 1 invariant arr(authSys.AuxGIDs) != arr(old(authSys.AuxGIDs)) && fresh(authSys.AuxGIDs) && len(authSys.AuxGIDs) == len(old(authSys.AuxGIDs)) && off(authSys.AuxGIDs) == 0
+//@ loop 1 invariant forall(i, 0, rangeindex + 1, authSys.AuxGIDs[i] == ite(old(old(authSys.AuxGIDs)[i]) == 0, 65534, old(old(authSys.AuxGIDs)[i])))
+//@ loop 1 invariant forall(i, rangeindex + 1, len(authSys.AuxGIDs), authSys.AuxGIDs[i] == old(old(authSys.AuxGIDs)[i]))
+//@ loop 1 invariant forall(i, 0, len(old(authSys.AuxGIDs)), old(authSys.AuxGIDs)[i] == old(old(authSys.AuxGIDs)[i]))
+//@ loop 2 invariant 0 <= rangeindex + 1 && rangeindex + 1 <= len(auxCopy) && fresh(auxCopy) && len(auxCopy) == len(old(authSys.AuxGIDs)) && off(auxCopy) == 0
+//@ loop 2 invariant forall(i, 0, rangeindex + 1, auxCopy[i] == 65534)
+//@ loop 2 invariant forall(i, 0, len(old(authSys.AuxGIDs)), old(authSys.AuxGIDs)[i] == old(old(authSys.AuxGIDs)[i]))
